@@ -38,7 +38,7 @@ def check(case):
     st = dumps.build_state(resources, pk=cfg.get('pk', False), temporal_prop=temporal, reverse_row_keys=cfg.get('revkeys', False))
     label = 'dump_to_%s(format=%s%s%s%s%s) of %s' % (how, fmt, ', add_filehash_to_path' if cfg.get('filehash') else '',
                                                    ', temporal_format_property' if temporal else '', ', primaryKey' if cfg.get('pk') else '',
-                                                   ', row keys in reverse schema order' if cfg.get('revkeys') else '' + (', followed by a step editing rows in place' if cfg.get('mutate_after') else ''),
+                                                   ', row keys in reverse schema order' if cfg.get('revkeys') else '' + (', followed by a step editing rows in place' if cfg.get('mutate_after') else '') + (', into a directory holding an earlier version (one row less)' if cfg.get('over_previous') else ''),
                                                    cj([{'fields': t['fields'], 'rows': t['rows']} for t in case['tables']])[:300])
     opts = {'format': fmt}
     if cfg.get('filehash'):
@@ -60,6 +60,14 @@ def check(case):
         # another file dumper of the OTHER format further down the same flow must not disturb this one
         dumps.chain_after[0] = 'json' if fmt == 'csv' else 'csv'
     with core.scratch_dir() as d:
+        if cfg.get('over_previous'):
+            # the output location already holds an earlier version of the same package (one row less per table)
+            prev = make_resources({'tables': [dict(t, rows=t['rows'][:-1]) for t in case['tables']]})
+            stp = dumps.build_state(prev, pk=cfg.get('pk', False), temporal_prop=temporal)
+            try:
+                dumps.run_dump(stp, d, how, **opts)
+            except Exception:
+                pass
         try:
             dumps.options_after_mutation[0] = bool(cfg.get('mutate_after'))
             try:
@@ -209,6 +217,18 @@ def cases(tier):
             out.append({'tables': [eq_tbl], 'cfg': cfg})
             out.append({'tables': [eq_bool, eq_num], 'cfg': cfg})
             out.append({'tables': [eq_num, eq_bool], 'cfg': cfg})
+    many_sorted_early = {'fields': [[n, t] for n, t in zip('abcdefghij', TYPES)],
+                         'rows': [[E(vals[t][0]) for t in TYPES], [E(vals[t][-2]) for t in TYPES]]}
+    # two resources whose written files are byte-identical (a table and its copy; two empty tables of one schema)
+    twin = {'fields': [['a', 'integer'], ['b', 'string']], 'rows': [[E(1), E('x')], [E(2), E(None)]]}
+    empty = {'fields': [['a', 'integer'], ['b', 'string']], 'rows': []}
+    for cfg in full:
+        if cfg['how'] == 'path':
+            out.append({'tables': [twin], 'cfg': dict(cfg, over_previous=True)})
+            out.append({'tables': [many_sorted_early], 'cfg': dict(cfg, over_previous=True)})
+    for cfg in full:
+        out.append({'tables': [twin, copy.deepcopy(twin)], 'cfg': cfg})
+        out.append({'tables': [empty, twin, copy.deepcopy(empty)], 'cfg': cfg})
     # every row count around plausible buffer / batch sizes (a writer that buffers rows must close the file correctly for each)
     sizes = list(range(0, 131)) + [192, 200, 255, 256, 257, 500, 512, 1000, 1024, 2048]
     for n in sizes:
